@@ -136,11 +136,11 @@ class C09(ServerPlugin):
                 for cause in ("L", "M", "G"):
                     cases.append({"mode": mode, "proto": proto, "tr": "duplex",
                                   "evs": [pk, "S", "R0", "T0", cause, pk, "S", "T0", "T0", pk, "S", "R2", "S"]})
-        n = 900 if tier == "quick" else 30000
+        n = 900 if tier == "quick" else 20000
         for _ in range(n):
             proto = rng.choice(["h1", "h2", "auto"])
             x = rng.random()
-            tr = "duplex" if x < 0.66 else "dtls" if x < 0.9 else "unix" if x < 0.97 else "tcp"
+            tr = "duplex" if x < 0.68 else "dtls" if x < 0.92 else "unix" if x < 0.98 else "tcp"
             mode = rng.choice(["p", "p", "g"])
             nf, ng = rng.choice([1, 1, 2, 2, 3, 4, 6]), rng.choice([0, 1, 1, 2, 3])
             if tr == "tcp":
